@@ -28,7 +28,8 @@ fn process_token(token: Token) -> Result<Expression, ParserError> {
 }
 
 fn process_dec(token: Token) -> Result<Expression, ParserError> {
-    match token.to_string().parse::<u32>() {
+    let text = token.to_string();
+    match text.parse::<u32>() {
         Ok(u) => {
             if u <= MAX_INTEGER as u32 {
                 Ok(Expression::IntegerLiteral(u as i32))
@@ -38,7 +39,12 @@ fn process_dec(token: Token) -> Result<Expression, ParserError> {
                 Ok(Expression::DoubleLiteral(u as f64))
             }
         }
-        Err(e) => Err(e.into()),
+        // too many digits for an integer type: it is a double
+        Err(_) => match text.parse::<f64>() {
+            Ok(f) if f.is_finite() => Ok(Expression::DoubleLiteral(f)),
+            Ok(_) => Err(ParserError::Overflow),
+            Err(e) => Err(e.into()),
+        },
     }
 }
 
